@@ -498,7 +498,9 @@ struct Env {
 fn eval(env: &Env, s: &Stream, prep: &Prepared, chunks: &Chunks, pending: bool, rep: &mut Report) {
     let mut got = read_real(s.is_req, &prep.bytes, chunks.ends(), pending);
     let (mut class, mut violation) = judge(s.is_req, &prep.expect, &got);
-    if violation.is_some() {
+    // a failure class that already has its 3 recorded cases is only counted from here on
+    let saturated = violation.as_ref().is_some_and(|(k, _)| rep.violations.iter().filter(|v| v.key == *k).count() >= 3);
+    if violation.is_some() && !saturated {
         // a verdict must be reproducible (the only wall-clock dependence is read_up_to's
         // std::time::Instant deadline): re-run twice
         for _ in 0..2 {
@@ -534,7 +536,11 @@ fn eval(env: &Env, s: &Stream, prep: &Prepared, chunks: &Chunks, pending: bool, 
         rep.sample(|| json!({"case": case(), "stream_hex": hex::encode(&prep.bytes), "class": class, "result": match &got { Ok(Ok(v)) => brief(v), Ok(Err(e)) => format!("error: {e}"), Err(p) => format!("panic: {p}") }}));
     }
     if let Some((k, what)) = violation {
-        rep.violation(k, what, case());
+        if saturated {
+            rep.violation_count += 1;
+        } else {
+            rep.violation(k, what, case());
+        }
     }
 }
 
@@ -785,9 +791,6 @@ fn main() {
         jobs.push(Job::Garbage(true, g));
         jobs.push(Job::Garbage(false, g));
     }
-    for i in 0..limits.len() {
-        jobs.push(Job::Limit(i));
-    }
     // phases B(n), n = 1, 2, ...: all compositions of the messages whose stream has n bytes
     let top_n = nmax.max(nmax_req);
     let mut compose_by_n: Vec<Vec<Job>> = vec![vec![]; top_n + 1];
@@ -803,6 +806,10 @@ fn main() {
                 lo += step;
             }
         }
+    }
+    // the 10 MiB messages last, so that the first recorded counterexample of a class is a small one
+    for i in 0..limits.len() {
+        jobs.push(Job::Limit(i));
     }
     let composed_msgs = AtomicU64::new(0);
 
